@@ -93,6 +93,36 @@ func checkC07(c *Ctx) {
 				}
 			}
 		})
+		// the key under which the creating function enters the connection into the table: a map update in the creating
+		// function, or the key argument of a helper that stores its (key, connection) parameters into a map
+		var addKey ssa.Value
+		eachInstr(create, func(_ *ssa.BasicBlock, _ int, in ssa.Instruction) {
+			if mu, okm := in.(*ssa.MapUpdate); okm && isStringVal(mu.Key) {
+				addKey = mu.Key
+			}
+			cc := callOf(in)
+			if cc == nil {
+				return
+			}
+			g := calleeFn(cc)
+			if g == nil || !isModFn(g) || g.Blocks == nil {
+				return
+			}
+			eachInstr(g, func(_ *ssa.BasicBlock, _ int, gi ssa.Instruction) {
+				mu, okm := gi.(*ssa.MapUpdate)
+				if !okm {
+					return
+				}
+				kp, okk := mu.Key.(*ssa.Parameter)
+				_, okv := mu.Value.(*ssa.Parameter)
+				if okk && okv && isStringVal(kp) {
+					if idx := paramIndex(g, kp); idx >= 0 && idx < len(cc.Args) {
+						addKey = cc.Args[idx]
+					}
+				}
+			})
+		})
+		keyOK, keyWhy := false, "no removal"
 		for _, a := range goFns {
 			var s, r ssa.Instruction
 			eachInstr(a, func(_ *ssa.BasicBlock, _ int, in ssa.Instruction) {
@@ -105,9 +135,65 @@ func checkC07(c *Ctx) {
 			})
 			if s != nil && r != nil && instrDominates(s, r) {
 				ok = escapesWithout(posOf(s), func(x ssa.Instruction) bool { return x == r }) == nil
+				// the key the goroutine removes, resolved to a value of the creating function
+				var rmKey ssa.Value
+				for _, arg := range callOf(r).Args {
+					if !isStringVal(arg) {
+						continue
+					}
+					if u, oku := arg.(*ssa.UnOp); oku && u.Op == token.MUL {
+						if _, isFV := u.X.(*ssa.FreeVar); isFV {
+							arg = u.X
+						}
+					}
+					switch k := arg.(type) {
+					case *ssa.FreeVar:
+						eachInstr(create, func(_ *ssa.BasicBlock, _ int, in ssa.Instruction) {
+							if mc, okc := in.(*ssa.MakeClosure); okc && mc.Fn == a {
+								for i, fv := range a.FreeVars {
+									if fv == k && i < len(mc.Bindings) {
+										rmKey = mc.Bindings[i]
+									}
+								}
+							}
+						})
+					case *ssa.Parameter:
+						eachInstr(create, func(_ *ssa.BasicBlock, _ int, in ssa.Instruction) {
+							if g, okg := in.(*ssa.Go); okg && calleeFn(&g.Call) == a {
+								args := g.Call.Args
+								if idx := paramIndex(a, k); idx >= 0 && idx < len(args) {
+									rmKey = args[idx]
+								}
+							}
+						})
+					default:
+						keyWhy = "the goroutine removes the entry under a key it computes itself (" + exprDesc(arg) + "), not the key the entry was added under"
+					}
+				}
+				// a captured variable is a cell: the load of the same cell / the same parameter
+				same := func(x, y ssa.Value) bool {
+					if x == nil || y == nil {
+						return false
+					}
+					strip := func(v ssa.Value) ssa.Value {
+						if u, okv := v.(*ssa.UnOp); okv && u.Op == token.MUL {
+							return u.X
+						}
+						return v
+					}
+					return x == y || strip(x) == strip(y) || strip(x) == y || x == strip(y)
+				}
+				if addKey == nil {
+					keyWhy = "no table insertion with a key found in the creating function"
+				} else if same(addKey, rmKey) {
+					keyOK = true
+				} else if rmKey != nil {
+					keyWhy = "the goroutine removes the entry under " + exprDesc(rmKey) + " while it was added under " + exprDesc(addKey)
+				}
 			}
 		}
 		c.Check(ok, "R2", "connection goroutine removes its table entry after the run returns", create.Pos(), "go { c.Start(); u.removeClient(addr) }", "a finished backend connection is not removed from the table: later requests for that address keep getting the dead connection")
+		c.Check(keyOK, "R2", "connection goroutine removes the key it was added under", create.Pos(), "removal key and insertion key are the same value of the creating function", keyWhy+": when the two strings differ (a host name, another spelling of the address) the dead connection stays in the table and every later request for that address fails")
 		checkCloseBeforeJoin(c, "R2")
 	}
 	c.Expect("R2", 3)
@@ -429,33 +515,33 @@ func checkParsedViewApplied(c *Ctx, rule string) {
 // the reader returns and before the writer is joined - a writer blocked in a socket write is only woken by the close.
 func checkCloseBeforeJoin(c *Ctx, rule string) {
 	p := c.P
-		// Close between reader return and writer join, in every component with reader/writer pair
-		for _, comp := range []struct{ fn, reader string }{{"(*client).Start", "loopRead"}, {"(*session).Serve", "loopRead"}} {
-			fn := p.Func(redisPkg, comp.fn)
-			if fn == nil {
-				c.Unresolved(rule, comp.fn)
-				continue
-			}
-			var rd, join, cl ssa.Instruction
-			eachInstr(fn, func(_ *ssa.BasicBlock, _ int, in ssa.Instruction) {
-				if cc := callOf(in); cc != nil {
-					if g := calleeFn(cc); g != nil && g.Name() == comp.reader {
-						rd = in
-					}
-					if cc.IsInvoke() && cc.Method.Name() == "Close" && rd != nil && cl == nil {
-						if f, _ := loadedField(cc.Value); f != nil && f.Name() == "conn" {
-							cl = in
-						}
-					}
-				}
-				if u, ok := in.(*ssa.UnOp); ok && u.Op == token.ARROW && localLatchClosedByGoroutine(fn, u.X) {
-					join = in
-				}
-			})
-			okc := rd != nil && join != nil && cl != nil && instrDominates(rd, cl) && instrDominates(cl, join)
-			c.Check(okc, rule, fnKey(fn)+" closes the connection before joining the writer", fn.Pos(), "reader returns -> conn.Close() -> join", "after the reader returns the connection is not closed before the writer is joined: a writer blocked in a socket write (backend stopped reading) is never woken, the connection's goroutine never ends, its queued requests are never answered and the dead connection is never replaced")
+	// Close between reader return and writer join, in every component with reader/writer pair
+	for _, comp := range []struct{ fn, reader string }{{"(*client).Start", "loopRead"}, {"(*session).Serve", "loopRead"}} {
+		fn := p.Func(redisPkg, comp.fn)
+		if fn == nil {
+			c.Unresolved(rule, comp.fn)
+			continue
 		}
+		var rd, join, cl ssa.Instruction
+		eachInstr(fn, func(_ *ssa.BasicBlock, _ int, in ssa.Instruction) {
+			if cc := callOf(in); cc != nil {
+				if g := calleeFn(cc); g != nil && g.Name() == comp.reader {
+					rd = in
+				}
+				if cc.IsInvoke() && cc.Method.Name() == "Close" && rd != nil && cl == nil {
+					if f, _ := loadedField(cc.Value); f != nil && f.Name() == "conn" {
+						cl = in
+					}
+				}
+			}
+			if u, ok := in.(*ssa.UnOp); ok && u.Op == token.ARROW && localLatchClosedByGoroutine(fn, u.X) {
+				join = in
+			}
+		})
+		okc := rd != nil && join != nil && cl != nil && instrDominates(rd, cl) && instrDominates(cl, join)
+		c.Check(okc, rule, fnKey(fn)+" closes the connection before joining the writer", fn.Pos(), "reader returns -> conn.Close() -> join", "after the reader returns the connection is not closed before the writer is joined: a writer blocked in a socket write (backend stopped reading) is never woken, the connection's goroutine never ends, its queued requests are never answered and the dead connection is never replaced")
 	}
+}
 
 // checkSingleflightEntry (C07.R1, C04.R7): the in-flight entry of a connect attempt is deleted by the goroutine that won
 // it on every path, before the waiters are released - a finished entry that stays in the map pins every later request
@@ -506,14 +592,128 @@ func checkSingleflightEntry(c *Ctx, rule string, calls *types.Var) {
 				f, _ := fieldAddr(cc.Args[0])
 				return f == calls && stripConv(cc.Args[1]) == stripConv(key)
 			}
-			path := findPath(ipos{winB, -1}, pathQuery{target: isReturn, avoid: isDelete})
+			// the deletion may sit in a deferred closure: once the defer statement is passed, every exit runs it
+			isDeferredDelete := func(x ssa.Instruction) bool {
+				df, ok := x.(*ssa.Defer)
+				if !ok {
+					return false
+				}
+				mc, ok := df.Call.Value.(*ssa.MakeClosure)
+				if !ok {
+					return false
+				}
+				cl, _ := mc.Fn.(*ssa.Function)
+				if cl == nil {
+					return false
+				}
+				found := false
+				eachInstr(cl, func(_ *ssa.BasicBlock, _ int, y ssa.Instruction) {
+					cc := callOf(y)
+					if cc == nil {
+						return
+					}
+					g := calleeFn(cc)
+					if g == nil || g.String() != "(*sync.Map).Delete" {
+						return
+					}
+					if f, _ := fieldAddr(cc.Args[0]); f != calls {
+						return
+					}
+					// the key: a captured variable bound to the key of the LoadOrStore
+					k := stripConv(cc.Args[1])
+					if u, ok := k.(*ssa.UnOp); ok && u.Op == token.MUL {
+						k = u.X
+					}
+					if fv, ok := k.(*ssa.FreeVar); ok {
+						for i, v := range cl.FreeVars {
+							if v == fv && i < len(mc.Bindings) {
+								b := mc.Bindings[i]
+								kk := stripConv(key)
+								if u, ok := kk.(*ssa.UnOp); ok && u.Op == token.MUL {
+									kk = u.X
+								}
+								if b == kk || b == stripConv(key) {
+									found = true
+								}
+							}
+						}
+					}
+				})
+				return found
+			}
+			path := findPath(ipos{winB, -1}, pathQuery{target: isReturn, avoid: func(x ssa.Instruction) bool { return isDelete(x) || isDeferredDelete(x) }})
 			if path != nil {
 				c.Fail(rule, site, call.Pos(), "the goroutine that wins LoadOrStore returns without deleting the key ("+p.pathString(path)+"): the finished entry stays in the map, so after one reset or one refused connect every later request for that address gets the cached dead connection or the cached error for ever")
 			} else {
 				c.OK(rule, site, call.Pos(), "every path of the winner crosses createClientCalls.Delete(key)")
 			}
-			// losers only wait and read the result
-			_ = types.Typ
+			// the waiters read the entry's result fields after the latch: whatever the winner returns it must have
+			// stored into the entry first (a failed attempt whose error is not stored hands the waiters a nil
+			// connection and a nil error)
+			var entry ssa.Value
+			for _, r := range *call.Referrers() {
+				if ex, ok := r.(*ssa.Extract); ok && ex.Index == 0 {
+					for _, rr := range *ex.Referrers() {
+						if ta, ok := rr.(*ssa.TypeAssert); ok {
+							entry = ta
+						}
+					}
+				}
+			}
+			if entry != nil {
+				nres := 0
+				type retVal struct {
+					v  ssa.Value
+					at ssa.Instruction
+				}
+				var vals []retVal
+				seenAt := map[ssa.Instruction]bool{}
+				inWin := func(b *ssa.BasicBlock) bool { return b == winB || winB.Dominates(b) }
+				eachInstr(fn, func(b *ssa.BasicBlock, _ int, in ssa.Instruction) {
+					ret, ok := in.(*ssa.Return)
+					if !ok || !inWin(b) {
+						return
+					}
+					// with a defer in the function the results are spilled into cells: the values returned are the
+					// values stored into those cells at each return statement
+					for _, r := range ret.Results {
+						if ld, ok := r.(*ssa.UnOp); ok && ld.Op == token.MUL {
+							if al, ok := ld.X.(*ssa.Alloc); ok {
+								for _, rr := range *al.Referrers() {
+									if st, ok := rr.(*ssa.Store); ok && st.Addr == ssa.Value(al) && inWin(st.Block()) && !seenAt[st] {
+										seenAt[st] = true
+										vals = append(vals, retVal{st.Val, st})
+									}
+								}
+								continue
+							}
+						}
+						vals = append(vals, retVal{r, in})
+					}
+				})
+				for _, rv := range vals {
+					r, at := rv.v, rv.at
+					if isNilConst(r) {
+						continue
+					}
+					nres++
+					stored := false
+					eachInstr(fn, func(_ *ssa.BasicBlock, _ int, x ssa.Instruction) {
+						st, ok := x.(*ssa.Store)
+						if !ok || st.Val != r {
+							return
+						}
+						if fa, ok := st.Addr.(*ssa.FieldAddr); ok && (fa.X == entry || resolveCell(fa.X) == entry) && types.Identical(deref(fa.Type()), r.Type()) && instrDominates(x, at) {
+							stored = true
+						}
+					})
+					what := "the connection"
+					if types.Identical(r.Type(), types.Universe.Lookup("error").Type()) {
+						what = "the error"
+					}
+					c.Check(stored, rule, fmt.Sprintf("%s return#%d: %s is shared with the waiters", site, nres, what), at.Pos(), "the value returned is stored into the in-flight entry before the return", what+" the winner returns is not stored into the in-flight entry: the callers waiting for this attempt read a nil connection and a nil error and dereference it (the process crashes, none of its requests is answered)")
+				}
+			}
 		})
 	}
 	if nLS == 0 {
